@@ -86,6 +86,9 @@ pub struct DevInner {
     /// (call index, offset, length) of every logged write of the current / last operation (kept until the next
     /// `begin_op`; generator support)
     pub wcalls: Vec<(u64, u64, usize)>,
+    /// kind (b'r', b'w', b's', b'f') of every call of the current / last operation, index = call number − 1
+    /// (generator support, kept until the next `begin_op`)
+    pub kinds: Vec<u8>,
     pub fail_at: Option<u64>,
     pub fired: Option<Fired>,
     pub budget: u64,
@@ -102,6 +105,7 @@ impl DevInner {
             cnt: Counters::default(),
             log: Vec::new(),
             wcalls: Vec::new(),
+            kinds: Vec::new(),
             fail_at: None,
             fired: None,
             budget: DEFAULT_BUDGET,
@@ -155,6 +159,7 @@ impl DevInner {
         }
         let in_drop = fatfs::verif::drop_depth() > 0;
         self.cnt.calls += 1;
+        self.kinds.push(kind as u8);
         match kind {
             'r' => self.cnt.reads += 1,
             'w' => self.cnt.writes += 1,
@@ -200,6 +205,7 @@ impl Dev {
             d.cnt = Counters::default();
             d.log.clear();
             d.wcalls.clear();
+            d.kinds.clear();
             d.fired = None;
             d.fail_at = fault;
         });
